@@ -177,7 +177,7 @@ class C05(F.PropCheck):
             if bad: break
             # (2) a frame in every window of T seconds (from the registration answer on)
             sends = sorted(ints[0] for (k, ints, _) in outs if k == 'WIRE' and ints[1] == cn and tok <= ints[0] < t_dist)
-            closed = [ints[0] for (k, ints, _) in outs if k in ('DISCONNECT', 'DISCD', 'RESTART') and tok < ints[0] < t_dist]
+            closed = [ints[0] for (k, ints, _) in outs if k in ('DISCONNECT', 'DISCD', 'RESTART') and tok <= ints[0] < t_dist]
             prev = tok
             for t in sends + [min([t_dist] + closed)]:
                 if t - prev > T * S + J:
@@ -313,12 +313,13 @@ class C05(F.PropCheck):
             kk = tR // S + 1
             while (boot + kk * S) // S - (boot + tR) // S < T + 10: kk += 1
             tk = kk * S
-            delta = rng.choice([200000, 400000, 700000, 1000000, 1300000, 1450000, rng.randrange(100000, 1500000), rng.choice([1700000, 1950000, 2500000, -300000])])
+            delta = rng.choice([200000, 400000, 700000, 1000000, 1200000, rng.randrange(100000, 1300000), rng.randrange(100000, 1300000), rng.choice([1700000, 1950000, 2500000, -300000])])
             td = tk - delta
             evs += self.local_traffic(rng, td - t, 'none') if td > t else []
             evs.append(('DISCCB', [], b''))
-            t2 = max(tk + 30000, td) if delta >= 0 else td
-            if t2 > td: evs.append(('ADV', [t2 - td], b''))
+            # (the 200 ms status poll must see CONNECTING once after the device's wifi_station_connect before the environment reports GOT_IP)
+            t2 = max(tk, td) + rng.choice([230000, 250000, 300000])
+            evs.append(('ADV', [t2 - td], b''))
             d = rng.choice([0, 50000, 100000])
             evs += [('SERVER', [d], b''), ('WIFI', [5], b''), ('ADV', [rng.choice([250000, 300000])], b''), ('CONNCB', [], b''), ('ADV', [rng.choice([110000, 150000])], b''),
                     ('RECV', [], reg_result(3, T, 1))]
